@@ -380,6 +380,30 @@ macro_rules! hex32_top {
         }
     };
 }
+#[kani::proof]
+#[kani::unwind(48)]
+#[kani::stub(core::str::validations::run_utf8_validation, stdlite::run_utf8_validation)]
+fn c06_oct43_top_u128() {
+    let mut buf = [b'7'; 45];
+    buf[0] = b'0';
+    buf[1] = b'o';
+    let x: u8 = kani::any();
+    kani::assume(x < 8);
+    buf[2] = b'0' + x;
+    // value = x * 8^42 + (8^42 - 1); 8^42 = 2^126, so it fits u128 iff x <= 3
+    let r = parse_int_unsigned::<u128>(as_str(&buf), "u128", loc(), false);
+    match &r {
+        Ok(v) => {
+            assert!(x <= 3, "value beyond u128 accepted");
+            assert!(*v == ((x as u128) << 126) | ((1u128 << 126) - 1), "value differs from the exact one");
+        }
+        Err(_) => assert!(x > 3, "in-range integer rejected"),
+    }
+    kani::cover!(r.is_err(), "rejected");
+    kani::cover!(r.is_ok(), "accepted");
+    std::mem::forget(r);
+}
+
 hex32_top!(c06_hex32_top_i64_f, i64, "i64", false, b'f');
 hex32_top!(c06_hex32_top_i64_neg_f, i64, "i64", true, b'f');
 hex32_top!(c06_hex32_top_i128_0, i128, "i128", false, b'0');
